@@ -20,6 +20,7 @@ type FC struct {
 	Path string
 	nf   map[string]string
 	attr []attributed
+	tiny map[string]tinyDef
 }
 
 var fcCache = map[string]*FC{}
@@ -102,9 +103,9 @@ func (c *Ctx) expectNF(f *FC, rule, name string, accept []string, why string) bo
 		return false
 	}
 	ok := false
-	nf = canonDiag(nf)
+	nf = f.canon(nf)
 	for i := range accept {
-		accept[i] = canonDiag(accept[i])
+		accept[i] = f.canon(accept[i])
 	}
 	for _, a := range accept {
 		if specRegexp(a).MatchString(nf) {
@@ -114,7 +115,7 @@ func (c *Ctx) expectNF(f *FC, rule, name string, accept []string, why string) bo
 	if !ok {
 		if nf2, helpers := f.nfInliningNewHelpers(fn, false); len(helpers) > 0 {
 			for _, a := range accept {
-				if specRegexp(a).MatchString(canonDiag(nf2)) {
+				if specRegexp(a).MatchString(f.canon(nf2)) {
 					c.R.OK(rule, name, "closed-form", c.Pos(f.M.Fset, fn.Decl.Pos()), why+" (after inlining the helper(s) added since the review: "+strings.Join(helpers, ", ")+"): "+nf2)
 					return true
 				}
